@@ -416,6 +416,7 @@ pub(crate) async fn _mpc(ctx: &Context<'_, impl Channel>) -> Result<Vec<bool>, E
 fn validate(ctx: &Context<impl Channel>) -> Result<(), Error> {
     let &Context {
         p_own,
+        p_eval,
         p_max,
         circ,
         inputs,
@@ -426,6 +427,9 @@ fn validate(ctx: &Context<impl Channel>) -> Result<(), Error> {
     let Some(expected_inputs) = circ.input_regs.get(p_own) else {
         return Err(Error::PartyDoesNotExist);
     };
+    if p_eval >= p_max {
+        return Err(Error::PartyDoesNotExist);
+    }
     if *expected_inputs != inputs.len() {
         return Err(Error::WrongInputSize {
             expected: *expected_inputs,
